@@ -165,6 +165,33 @@ impl MqttSink {
     }
 }
 
+#[cfg(ntex_mqtt_verif)]
+impl MqttSink {
+    /// verification hook: (in-flight, waiters, cap, write back-pressure, streaming)
+    pub fn verif_state(&self) -> (usize, usize, usize, bool, bool) {
+        self.0.verif_state()
+    }
+
+    /// verification hook: signal write back-pressure on/off as the control service does
+    pub fn verif_wr_backpressure(&self, on: bool) {
+        if on {
+            self.0.enable_wr_backpressure();
+        } else {
+            self.0.disable_wr_backpressure();
+        }
+    }
+
+    /// verification hook: change the send window
+    pub fn verif_set_cap(&self, cap: usize) {
+        self.0.set_cap(cap);
+    }
+
+    /// verification hook: preset the packet id counter
+    pub fn verif_set_idx(&self, idx: u16) {
+        self.0.verif_set_idx(idx);
+    }
+}
+
 impl fmt::Debug for MqttSink {
     fn fmt(&self, fmt: &mut fmt::Formatter<'_>) -> fmt::Result {
         fmt.debug_struct("MqttSink").finish()
